@@ -287,6 +287,58 @@ pub fn c08(cx: &RunCtx) {
     eprintln!("[C08] trees {} compared {} viol {}", st.nodes, st.compared, cx.rec.total());
     cx.add_run(&st, desc);
 
+    // depth 1 over a dense grid of operands off the axes (every quadrant, inside and outside the unit circle,
+    // next to the cuts but not on them): k/2 + (l/2)i with |k|, |l| <= 6 (quick) or k/4, |k| <= 16 (thorough),
+    // shifted by 1/8 so that no component is zero or +-1
+    let (n, div) = if cx.tier == Tier::Quick { (6i32, 2.0) } else { (16i32, 4.0) };
+    let mut grid: Vec<Leaf<Cpx>> = Vec::new();
+    for k in -n..=n {
+        for l in -n..=n {
+            grid.push(cleaf(k as f64 / div + 0.125, l as f64 / div - 0.125));
+        }
+    }
+    // the pairs are taken against a small second list, not the full square of the grid
+    let mut uns2: Vec<UnOp> = vec![UnOp::Neg, UnOp::Sup2, UnOp::Deg, UnOp::Rad];
+    for f in all_funcs1() {
+        uns2.push(UnOp::Call(f));
+    }
+    let cfg_u = TreeCfg::<Cpx> {
+        engine: "E-TREE complex one-argument functions over a dense off-axis grid".into(),
+        bins: vec![],
+        uns: uns2,
+        pool: grid.clone(),
+        pool3: vec![],
+        depth: 1,
+        kinds: &kinds,
+        judge: Some(&judge_defs),
+        on_ok: None,
+        family: None,
+    };
+    let (st, desc) = explore_trees::<Cpx>(&cfg_u, &cx.rec);
+    eprintln!("[C08] grid trees {} compared {} viol {}", st.nodes, st.compared, cx.rec.total());
+    cx.add_run(&st, desc);
+    let step = if cx.tier == Tier::Quick { 3 } else { 2 };
+    let sub: Vec<Leaf<Cpx>> = grid.iter().step_by(step).cloned().collect();
+    let mut bins2: Vec<BinKind> = [Add, Sub, Mul, Div, Pow].iter().map(|b| BinKind::Op(*b)).collect();
+    bins2.push(BinKind::Call(Func::Pow));
+    bins2.push(BinKind::Call(Func::Root));
+    bins2.push(BinKind::Call(Func::Log));
+    let cfg_b = TreeCfg::<Cpx> {
+        engine: "E-TREE complex binary operations over a sub-grid (all ordered pairs)".into(),
+        bins: bins2,
+        uns: vec![],
+        pool: sub,
+        pool3: vec![],
+        depth: 1,
+        kinds: &kinds,
+        judge: Some(&judge_defs),
+        on_ok: None,
+        family: None,
+    };
+    let (st, desc) = explore_trees::<Cpx>(&cfg_b, &cx.rec);
+    eprintln!("[C08] sub-grid pair trees {} compared {} viol {}", st.nodes, st.compared, cx.rec.total());
+    cx.add_run(&st, desc);
+
     real_vs_complex(cx);
 
     // lexical part: imaginary literals, bare i, pi vs p+i
